@@ -352,7 +352,9 @@ func (r *blockReader) Value(seg Segment) []byte {
 		if i < 0 {
 			i = s.Start
 		}
-		ret = s.ConcatPadding(ret)
+		if i == s.Start { // the padding stands in front of the line's first byte
+			ret = s.ConcatPadding(ret)
+		}
 		for ; i < seg.Stop && i < s.Stop; i++ {
 			ret = append(ret, r.source[i])
 		}
